@@ -25,6 +25,7 @@ type params struct {
 	Lo    int           `json:"lo,omitempty"`
 	Hi    int           `json:"hi,omitempty"`
 	N     int           `json:"n,omitempty"`
+	Full  bool          `json:"full,omitempty"`
 	Seed  int64         `json:"seed"`
 }
 
@@ -78,6 +79,10 @@ func plan(seed int64, tier string) []vrt.Case {
 	}
 	for lo := 0; lo < nRebuild; lo += 10 {
 		add(fmt.Sprintf("rebuild-%d", lo), params{Kind: "rebuild", Lo: lo, Hi: min(lo+10, nRebuild), N: nRebuild})
+	}
+	nAlign := len(lzwork.AlignSpecs(tier == "thorough"))
+	for lo := 0; lo < nAlign; lo += 400 {
+		add(fmt.Sprintf("align-%d", lo), params{Kind: "align", Lo: lo, Hi: min(lo+400, nAlign), N: nAlign, Full: tier == "thorough"})
 	}
 	add("golden", params{Kind: "golden"})
 	rangeID := func(r lzwork.Range) string {
@@ -380,18 +385,24 @@ func run(cs vrt.Case) vrt.Obs {
 			c.both(sp.String(), in, uint64(i), true, parts)
 		}
 		o.Sample = map[string]any{"kind": "long", "inputs": names, "directions": "library->reference (header + decode), reference->library (Read + Close)", "header_modes": "b2 and raw"}
-	case "rebuild":
-		// volume over the moment the adaptive tree is rebuilt (lzwork.RebuildSpecs), one header mode per input
+	case "rebuild", "align":
+		// rebuild: volume over the moment the adaptive tree is rebuilt (lzwork.RebuildSpecs); align: a long
+		// repeat at every alignment relative to the ring buffer (lzwork.AlignSpecs). One header mode per input.
 		specs := lzwork.RebuildSpecs(p.Seed, p.N)
+		if p.Kind == "align" {
+			specs = lzwork.AlignSpecs(p.Full)
+		}
 		var names []string
 		for i := p.Lo; i < p.Hi && i < len(specs); i++ {
 			in := specs[i].Bytes()
-			names = append(names, specs[i].String())
-			o.Count("inputs_rebuild_family", 1)
+			if len(names) < 12 {
+				names = append(names, specs[i].String())
+			}
+			o.Count("inputs_"+p.Kind+"_family", 1)
 			o.Count("input_bytes", int64(len(in)))
 			c.modes(specs[i].String(), in, uint64(i), true, nil, []bool{i%2 == 0})
 		}
-		o.Sample = map[string]any{"kind": "rebuild", "inputs": names}
+		o.Sample = map[string]any{"kind": p.Kind, "inputs": p.Hi - p.Lo, "first_inputs": names}
 	case "golden":
 		// streams made by the original tool chain (not by the reference encoder): the library must read them
 		var names []string
